@@ -3,6 +3,7 @@ import DaeVerif.C13.Drain
 import DaeVerif.C13.Keys
 import DaeVerif.C13.TQ
 import DaeVerif.C13.EP
+import DaeVerif.C13.EPC
 /-!
 # C13 — executable models (core Lean only)
 
@@ -10,5 +11,6 @@ import DaeVerif.C13.EP
 * `Drain`   — (c) drain tickets (`control_plane_drain.go`)
 * `Keys`    — (d, pure part) endpoint-key choice (`udp_flow.go`)
 * `TQ`      — (a) per-flow task queues as an interleaving transition system (`udp_task_pool.go`)
-* `EP`      — (d) endpoint pool life cycle (`udp_endpoint_pool.go`)
+* `EP`      — (d) endpoint pool life cycle (`udp_endpoint_pool.go`), sequential specification
+* `EPC`     — (d) the lock structure of `GetOrCreate` for one key (transition system, with its invariant)
 -/
